@@ -4,7 +4,11 @@
 /* The including harness defines WTYPE (wide signed type holding every exact value) and MULED(v) = v * ed
    (as a plain value when ed == 1, as a shift when ed is a power of two: keeps the SAT encoding small). */
 typedef WTYPE W;
+typedef unsigned WTYPE UW;
+/* shift of a possibly negative wide value without C undefined behaviour */
+#define SHL(v, k) ((W)((UW)(v) << (k)))
 int ir2c_threw;
+static unsigned g_e;   /* exponent of the *_2exp harnesses (used by MULED) */
 unsigned nondet_uint(void);
 /* r: returned Result; pol: 0 = Check_Overflow_Policy (no infinities), 1 = WRD_Extended_Number_Policy */
 /* prod: for fused multiply-add/sub, the exact product x*y (has_prod != 0): when the product alone overflows and the
